@@ -7,6 +7,7 @@ made directly over the reference bytes (by the library's raw signer, and by Open
 party) must be accepted by block verification.  Key ids are recomputed from the reference
 encoding of the key description.
 """
+import copy
 import hashlib
 import itertools
 import json
@@ -156,11 +157,18 @@ def shard_run(binpath, seed, sh, nshards, thorough):
     cases = []
     pub = W.pub("ed0")
     for (f, d), w in zip(docs, wires):
-        ref = ref_bytes(w["signed"])
-        b = blame(w["signed"])
+        # the reference implementation signs the document it is given: for links that is the generated document itself
+        # (the only documented addition of a parse is a null environment), not what the library hands back after parsing it
+        src = w["signed"]
+        if d.get("_type") == "link":
+            src = copy.deepcopy(d)
+            src.setdefault("environment", None)
+            res.classes["reference_bytes_from_input_document"] += 1
+        ref = ref_bytes(src)
+        b = blame(src)
         meta = {"field": f, "blame": b, "libsig": w["signatures"][0]["sig"], "ref": ref.decode()[:2000]}
         cases.append({"op": "rawsig", "key": "ed0", "msg": {"hex": ref.hex()}, "meta": dict(meta, kind="eq"),
-                      "signed": w["signed"]})
+                      "signed": src})
         cases.append({"op": "rawverify", "pub": pub, "msg": {"hex": ref.hex()}, "sig": w["signatures"][0],
                       "meta": dict(meta, kind="libsig_over_ref")})
     obs = common.run_batch(binpath, cases)
